@@ -51,7 +51,7 @@ CLAIMED["C17"] = ("TLA+ Locks (every public call as a program of lock steps, poi
 CLAIMED["C14"] = ("TLA+ Macros (invocation ASTs, Denote = the insert/connect fold or a panic naming the unlisted key, MacroOK property layer) enumerated and checked (FoldOK) by TLC; every AST x 4 forms x 4 macros rendered as Rust source, compiled against the working tree and run; observed graph / panic compared with the emitted denotation, disagreements judged by TLC",
   "All invocations with <=2 node entries (thorough <=3) over keys {1,2} with targets in {1,2,3} (3 = unlisted), absent / empty / non-empty edge lists, self-loops, repeats, forward references x 4 forms x 4 macros (~2 700 generated programs per quick run) plus the *_node!/*_connect! helpers.", "§4 C14")
 CLAIMED["C16"] = ("TLA+ SendSync (auto-trait derivation as a greatest fixed point over the recursive node types, explicit unsafe impls as data, property layer Allowed / NoRace) checked by TLC for all 64 capability assignments; the compiler's actual Send/Sync table for 4 flavours x {Node, Edge, Graph} x 64 witness payload combinations (generated probe crate) judged row by row by TLC; generic positive obligations must type-check",
-  "Exhaustive over the capability lattice {Send+Sync, Send only, Sync only, neither}^3; by parametricity this decides 'only if' for all payload types. Plus 220 carrier rows (search builders with their type-erased callback: never Send/Sync; iterators and paths: only if all payloads are Send+Sync), obtained through the public API and probed at value level.", "§4 C16")
+  "Exhaustive over the capability lattice {Send+Sync, Send only, Sync only, neither}^3; by parametricity this decides 'only if' for all payload types. Plus 187 carrier rows (search builders with their type-erased callback: never Send/Sync; iterators and paths: only if all payloads are Send+Sync), obtained through the public API and probed at value level.", "§4 C16")
 
 NOT_YET = {}
 props = [json.loads(l) for l in open(os.path.join(V, "properties.jsonl"))]
